@@ -61,6 +61,7 @@ type gen struct {
 	con   *Contract
 
 	vals     map[ssa.Value]*Val
+	fnNamed  map[int]bool
 	incoming map[*ssa.BasicBlock][]*edge
 	done     map[*ssa.BasicBlock]bool
 	loops    map[*ssa.BasicBlock]*loopInfo
@@ -259,7 +260,28 @@ func (g *gen) leafKeyL(a *AddrInfo, l Leaf) LeafKey {
 func keySortOf(a *AddrInfo) Sort { return SInt }
 
 // load reads a value of type t through pointer p in state st.
+// wholeArrayObject: p points at a whole (small) array object, whose elements
+// live in the element maps (that is where IndexAddr stores put them).
+func wholeArrayObject(p *Val, t types.Type) *types.Array {
+	arr, ok := t.Underlying().(*types.Array)
+	if !ok || arr.Len() > 8 || p.Addr == nil || !p.Addr.Known || p.Addr.Elem || p.Addr.Path != "" || p.Addr.Key != "" {
+		return nil
+	}
+	if ra, ok := p.Addr.Root.Underlying().(*types.Array); !ok || !types.Identical(ra, arr) {
+		return nil
+	}
+	return arr
+}
+
 func (g *gen) load(st *State, p *Val, t types.Type) *Val {
+	if arr := wholeArrayObject(p, t); arr != nil {
+		v := &Val{T: t}
+		for i := int64(0); i < arr.Len(); i++ {
+			ep := &Val{T: types.NewPointer(arr.Elem()), L: p.L, Addr: &AddrInfo{Root: arr.Elem(), Elem: true, Idx: Int(i), Known: true}}
+			v.L = append(v.L, g.load(st, ep, arr.Elem()).L...)
+		}
+		return v
+	}
 	ls := leavesOf(t)
 	if p.Addr == nil || !p.Addr.Known {
 		g.note("load through pointer of unknown shape (%s): result havoced", typeKey(t))
@@ -301,6 +323,14 @@ func (g *gen) recordWrite(k LeafKey, s Sort) {
 }
 
 func (g *gen) store(st *State, p *Val, t types.Type, v *Val) {
+	if arr := wholeArrayObject(p, t); arr != nil && len(v.L) == len(leavesOf(t)) {
+		n := len(leavesOf(arr.Elem()))
+		for i := int64(0); i < arr.Len(); i++ {
+			ep := &Val{T: types.NewPointer(arr.Elem()), L: p.L, Addr: &AddrInfo{Root: arr.Elem(), Elem: true, Idx: Int(i), Known: true}}
+			g.store(st, ep, arr.Elem(), &Val{T: arr.Elem(), L: v.L[int(i)*n : int(i+1)*n]})
+		}
+		return
+	}
 	ls := leavesOf(t)
 	if p.Addr == nil || !p.Addr.Known {
 		g.note("store through pointer of unknown shape: heap havoced")
@@ -615,7 +645,15 @@ func (g *gen) val(v ssa.Value) *Val {
 		r := g.globalRef(x.RelString(nil))
 		return &Val{T: x.Type(), L: []*Term{r}, Addr: &AddrInfo{Root: x.Type().(*types.Pointer).Elem(), Known: true}}
 	case *ssa.Function:
-		return scalar(x.Type(), App("fn."+sanitize(x.String()), SInt))
+		f := App("fn."+sanitize(x.String()), SInt)
+		if !g.fnNamed[f.id] {
+			if g.fnNamed == nil {
+				g.fnNamed = map[int]bool{}
+			}
+			g.fnNamed[f.id] = true
+			g.assumeGlobal(Eq(App("fnname", SStr, f), Str(strings.TrimSuffix(x.Name(), "$bound"))))
+		}
+		return scalar(x.Type(), f)
 	case *ssa.Builtin:
 		return scalar(x.Type(), Int(0))
 	}
@@ -631,6 +669,29 @@ func (g *gen) val(v ssa.Value) *Val {
 }
 
 func (g *gen) set(v ssa.Value, x *Val) { g.vals[v] = x }
+
+// rangeIndexTerms: current values of the element index of every range loop of
+// the function (rangeindex+1), used as witness candidates for existentials.
+func (g *gen) rangeIndexTerms() []*Term {
+	var out []*Term
+	if g.fn == nil {
+		return nil
+	}
+	for _, b := range g.fn.Blocks {
+		for _, in := range b.Instrs {
+			bo, ok := in.(*ssa.BinOp)
+			if !ok {
+				continue
+			}
+			if ph, ok := bo.X.(*ssa.Phi); ok && ph.Comment == "rangeindex" {
+				if v, ok := g.vals[bo]; ok && len(v.L) == 1 && len(out) < 6 {
+					out = append(out, v.L[0])
+				}
+			}
+		}
+	}
+	return out
+}
 
 // ---------------------------------------------------------------- source text
 
